@@ -26,6 +26,51 @@ Proof. unfold pcof, set_task, set_tasks. cbn. rewrite upd_same. reflexivity. Qed
 Lemma pcof_set_task_other s t v t' : t' <> t -> pcof (set_task s t v) t' = pcof s t'.
 Proof. intros H. unfold pcof, set_task, set_tasks. cbn. rewrite upd_other by exact H. reflexivity. Qed.
 
+(* the shutdown attempt of close(): only the `shut` flag can change *)
+Lemma shutdown_tr_cases s : (stalled s = true /\ shutdown_tr s = s) \/ (stalled s = false /\ shutdown_tr s = set_shut s).
+Proof. unfold shutdown_tr. destruct (stalled s); [left | right]; split; reflexivity. Qed.
+Lemma tasks_shutdown_tr s : tasks (shutdown_tr s) = tasks s.
+Proof. unfold shutdown_tr. destruct (stalled s); reflexivity. Qed.
+Lemma pcof_shutdown_tr s t : pcof (shutdown_tr s) t = pcof s t.
+Proof. unfold pcof. rewrite tasks_shutdown_tr. reflexivity. Qed.
+Lemma wr_shutdown_tr s : wr (shutdown_tr s) = wr s.
+Proof. unfold shutdown_tr. destruct (stalled s); reflexivity. Qed.
+Lemma waiters_shutdown_tr s : waiters (shutdown_tr s) = waiters s.
+Proof. unfold shutdown_tr. destruct (stalled s); reflexivity. Qed.
+
+Lemma buffering_shutdown_tr s : buffering (shutdown_tr s) = buffering s.
+Proof. unfold shutdown_tr. destruct (stalled s); reflexivity. Qed.
+Lemma pending_shutdown_tr s : pending (shutdown_tr s) = pending s.
+Proof. unfold shutdown_tr. destruct (stalled s); reflexivity. Qed.
+Lemma pkt_shutdown_tr s : pkt (shutdown_tr s) = pkt s.
+Proof. unfold shutdown_tr. destruct (stalled s); reflexivity. Qed.
+Lemma wire_shutdown_tr s : wire (shutdown_tr s) = wire s.
+Proof. unfold shutdown_tr. destruct (stalled s); reflexivity. Qed.
+Lemma closed_shutdown_tr s : closed (shutdown_tr s) = closed s.
+Proof. unfold shutdown_tr. destruct (stalled s); reflexivity. Qed.
+Lemma failing_shutdown_tr s : failing (shutdown_tr s) = failing s.
+Proof. unfold shutdown_tr. destruct (stalled s); reflexivity. Qed.
+Lemma next_sid_shutdown_tr s : next_sid (shutdown_tr s) = next_sid s.
+Proof. unfold shutdown_tr. destruct (stalled s); reflexivity. Qed.
+Lemma table_shutdown_tr s : table (shutdown_tr s) = table s.
+Proof. unfold shutdown_tr. destruct (stalled s); reflexivity. Qed.
+Lemma rtable_shutdown_tr s : rtable (shutdown_tr s) = rtable s.
+Proof. unfold shutdown_tr. destruct (stalled s); reflexivity. Qed.
+Lemma ralive_shutdown_tr s : ralive (shutdown_tr s) = ralive s.
+Proof. unfold shutdown_tr. destruct (stalled s); reflexivity. Qed.
+Lemma lin_shutdown_tr s : lin (shutdown_tr s) = lin s.
+Proof. unfold shutdown_tr. destruct (stalled s); reflexivity. Qed.
+Lemma dq_shutdown_tr s : dq (shutdown_tr s) = dq s.
+Proof. unfold shutdown_tr. destruct (stalled s); reflexivity. Qed.
+Lemma pushed_shutdown_tr s : pushed (shutdown_tr s) = pushed s.
+Proof. unfold shutdown_tr. destruct (stalled s); reflexivity. Qed.
+Lemma pump_owner_shutdown_tr s : pump_owner (shutdown_tr s) = pump_owner s.
+Proof. unfold shutdown_tr. destruct (stalled s); reflexivity. Qed.
+Lemma pump_done_shutdown_tr s : pump_done (shutdown_tr s) = pump_done s.
+Proof. unfold shutdown_tr. destruct (stalled s); reflexivity. Qed.
+Ltac shtr := rewrite ?tasks_shutdown_tr, ?pcof_shutdown_tr, ?wr_shutdown_tr, ?waiters_shutdown_tr, ?buffering_shutdown_tr, ?pending_shutdown_tr, ?pkt_shutdown_tr, ?wire_shutdown_tr, ?closed_shutdown_tr, ?failing_shutdown_tr, ?next_sid_shutdown_tr, ?table_shutdown_tr, ?rtable_shutdown_tr, ?ralive_shutdown_tr, ?lin_shutdown_tr, ?dq_shutdown_tr, ?pushed_shutdown_tr, ?pump_owner_shutdown_tr, ?pump_done_shutdown_tr.
+Ltac shtr_in H := rewrite ?tasks_shutdown_tr, ?pcof_shutdown_tr, ?wr_shutdown_tr, ?waiters_shutdown_tr, ?buffering_shutdown_tr, ?pending_shutdown_tr, ?pkt_shutdown_tr, ?wire_shutdown_tr, ?closed_shutdown_tr, ?failing_shutdown_tr, ?next_sid_shutdown_tr, ?table_shutdown_tr, ?rtable_shutdown_tr, ?ralive_shutdown_tr, ?lin_shutdown_tr, ?dq_shutdown_tr, ?pushed_shutdown_tr, ?pump_owner_shutdown_tr, ?pump_done_shutdown_tr in H.
+
 (* a state update that leaves lock, queue and every pc alone, except that task t now has pc p *)
 Definition pc_update (s s' : state) (t : tid) (p : pc) : Prop :=
   wr s' = wr s /\ waiters s' = waiters s /\ pcof s' t = p /\ (forall t', t' <> t -> pcof s' t' = pcof s t').
@@ -151,7 +196,7 @@ Proof.
       * cbn. rewrite upd_other by (intros E; apply Hwt; symmetry; exact E). reflexivity.
       * intros H1. apply Hnin. right. exact H1.
     + (* a queued closer obtains the lock, shuts down, releases again *)
-      set (s1 := finish_close (set_shut s) w a k).
+      set (s1 := finish_close (shutdown_tr s) w a k).
       assert (leaving s1 t ws) as L1.
       { unfold leaving. split; [|split; [|split]].
         - exact Hnd'.
@@ -160,20 +205,20 @@ Proof.
           + intros H1. destruct (Nat.eq_dec t' w) as [->|Hne2].
             * unfold s1 in H1. rewrite pcof_finish_close_same in H1. discriminate.
             * unfold s1 in H1. rewrite pcof_finish_close_other in H1 by exact Hne2.
-              change (pcof (set_shut s) t') with (pcof s t') in H1.
+              rewrite pcof_shutdown_tr in H1.
               apply Hw in H1; [|exact Hne]. destruct H1 as [->|H1]; [contradiction | exact H1].
           + intros H1. destruct (Nat.eq_dec t' w) as [->|Hne2]; [contradiction|].
             unfold s1. rewrite pcof_finish_close_other by exact Hne2.
-            change (pcof (set_shut s) t') with (pcof s t').
+            rewrite pcof_shutdown_tr.
             apply Hw; [exact Hne | right; exact H1].
         - intros t' Hne. destruct (Nat.eq_dec t' w) as [->|Hne2].
           + unfold s1. rewrite pcof_finish_close_same. reflexivity.
           + unfold s1. rewrite pcof_finish_close_other by exact Hne2.
-            change (pcof (set_shut s) t') with (pcof s t'). apply Hh. exact Hne. }
+            rewrite pcof_shutdown_tr. apply Hh. exact Hne. }
       destruct (IH s1 t L1) as (R1 & R2 & R3 & R4 & R5 & R6 & R7).
       unfold released. split; [|split; [|split; [|split; [|split; [|split]]]]]; auto.
       rewrite R6. unfold s1. rewrite tasks_finish_close_other by (intros E; apply Hwt; symmetry; exact E).
-      reflexivity.
+      rewrite tasks_shutdown_tr. reflexivity.
 Qed.
 
 (* ---- every step preserves the invariant ---- *)
@@ -231,6 +276,9 @@ Proof.
   - intros t. rewrite A3. apply Hh.
   - intros t. rewrite A3. apply Hw.
 Qed.
+
+Lemma quiet_shutdown_tr s : quiet s (shutdown_tr s).
+Proof. unfold quiet, shutdown_tr. destruct (stalled s); repeat split; reflexivity. Qed.
 
 Lemma quiet_set_task_samepc s t v : t_pc v = pcof s t -> quiet s (set_task s t v).
 Proof.
@@ -529,6 +577,7 @@ Proof.
     + inversion H; subst. eapply inv_qp with (s := s0) (s1 := set_buffering s0 false); [exact HI0 | quiet_refl_like | apply pcu_finish | exact N0 | reflexivity].
     + inversion H; subst. eapply inv_qp with (s := s0) (s1 := set_buffering s0 true); [exact HI0 | quiet_refl_like | apply pcu_finish | exact N0 | reflexivity].
     + inversion H; subst. eapply inv_qp with (s := s0) (s1 := set_failing s0); [exact HI0 | quiet_refl_like | apply pcu_finish | exact N0 | reflexivity].
+    + inversion H; subst. eapply inv_qp with (s := s0) (s1 := set_stalled s0); [exact HI0 | quiet_refl_like | apply pcu_finish | exact N0 | reflexivity].
     + destruct (Nat.eqb t rtid); inversion H; subst.
       * eapply inv_pc_update; [exact HI0 | apply pcu_finish | exact N0 | reflexivity].
       * apply inv_pc_update with (s := feed_ev s0 ev) (t := t) (p := PIdle).
@@ -587,6 +636,7 @@ Proof.
   - (* PW4 *)
     assert (wr s = Some t) as Ewr.
     { apply (inv_holder s HI). unfold pcof. rewrite Epc. reflexivity. }
+    destruct (stalled s && negb (shut s)); [discriminate|].
     destruct (failing s || shut s); inversion H; subst.
     + set (s1 := set_wire s (pkt s + 1)%N (wire s)).
       assert (Inv s1) as HI1 by (eapply inv_quiet; [exact HI | quiet_refl_like]).
@@ -615,7 +665,7 @@ Proof.
     assert (neutral (pcof s t) = true) as N by (unfold pcof; rewrite Epc; reflexivity).
     destruct (wr s) eqn:Ewr; inversion H; subst.
     + rewrite <- Ewr. apply inv_enqueue; auto. congruence.
-    + eapply inv_qp with (s := s) (s1 := set_shut s); [exact HI | quiet_refl_like | apply pcu_finish_close | exact N | reflexivity].
+    + eapply inv_qp with (s := s) (s1 := shutdown_tr s); [exact HI | apply quiet_shutdown_tr | apply pcu_finish_close | exact N | reflexivity].
   - discriminate.
   - (* PO0 *)
     assert (neutral (pcof s t) = true) as N by (unfold pcof; rewrite Epc; reflexivity).
